@@ -243,6 +243,20 @@ impl Publish {
     }
 }
 
+/// Verification hooks (`cfg(kani)` only): the crate-private header fields of `Publish`.
+#[cfg(kani)]
+impl Publish {
+    pub fn verif_header(&self) -> (bool, QoS, u16) {
+        (self.dup, self.qos, self.pkid)
+    }
+
+    pub fn verif_set_header(&mut self, dup: bool, qos: QoS, pkid: u16) {
+        self.dup = dup;
+        self.qos = qos;
+        self.pkid = pkid;
+    }
+}
+
 #[derive(Debug, Clone, PartialEq, Eq, Default)]
 pub struct PublishProperties {
     pub payload_format_indicator: Option<u8>,
